@@ -51,6 +51,10 @@ impl Out {
         self.ops.push(op);
         self.imp.push(imp);
     }
+    /// the op lines and the implementation's answers recorded so far
+    pub fn lines(&self) -> (&[String], &[String]) {
+        (&self.ops, &self.imp)
+    }
     pub fn n_ops(&self) -> usize {
         self.ops.len()
     }
